@@ -1,13 +1,13 @@
 """CX -- behaviour of the specification beyond the twenty listed properties (not registered in MANIFEST.json):
 work-queue discipline and resyncAfterSeconds (spec/Requeue.tla; monitors X01_QueueDiscipline, X02_ResyncAfter)."""
 from props import sync_level, all_families, COMPOSITE, DECORATOR
-import fam_requeue
+import fam_requeue, fam_multikind
 
 PLAN = all_families({
     "pkgs": {"composite": COMPOSITE, "decorator": DECORATOR},
-    "mc": {"quick": [], "thorough": []},
-    "beh": {"quick": [("MC_Requeue", "Beh_Requeue.cfg", fam_requeue.convert, 0)],
-            "thorough": [("MC_Requeue", "Beh_Requeue.cfg", fam_requeue.convert, 0)]},
+    "mc": {"quick": [("MC_MultiKind", "MC_MultiKind.cfg", None)], "thorough": [("MC_MultiKind", "MC_MultiKind.cfg", None)]},
+    "beh": {"quick": [("MC_Requeue", "Beh_Requeue.cfg", fam_requeue.convert, 0), ("MC_MultiKind", "Beh_MultiKind.cfg", fam_multikind.convert, 250)],
+            "thorough": [("MC_Requeue", "Beh_Requeue.cfg", fam_requeue.convert, 0), ("MC_MultiKind", "Beh_MultiKind.cfg", fam_multikind.convert, 0)]},
     "drift": fam_requeue.drift, "drift_fam": "requeue",
 })
 
